@@ -176,7 +176,17 @@ impl DocumentBuilder<'_> {
         // type already commits to. Objects can't appear in the
         // interface graph, so no cycle protection is needed.
         let existing_field_signatures = field_signatures_for(&self.object_type_defs, &name);
-        let implements_interfaces = self.additional_implements(&existing_field_signatures, None)?;
+        let mut implements_interfaces =
+            self.additional_implements(&existing_field_signatures, None)?;
+        if extend {
+            // An extension must not repeat an interface that the definition
+            // or an earlier extension of this type already implements.
+            for object in self.object_type_defs.iter().filter(|o| o.name == name) {
+                for interface in &object.implements_interfaces {
+                    implements_interfaces.shift_remove(interface);
+                }
+            }
+        }
         let exclude_fields: IndexSet<Name> = existing_field_signatures
             .keys()
             .map(|k| Name::new(k.clone()))
